@@ -3,7 +3,7 @@
    the property statements on the implementation's own outputs (tags 11..), reports guard facts
    (tags 201..).  Tags >= 1000: the evaluation-based comparison was undefined at too many points. *)
 From Coq Require Import QArith ZArith NArith List Bool PArith Arith.
-From PV Require Import Base.PyData Base.Expr Base.Interp Base.Stmts C05.Model C05.ToCs.
+From PV Require Import Base.PyData Base.Expr Base.Interp Base.Stmts C05.Model C05.ToCs C05.Access.
 Import ListNotations.
 Local Open Scope nat_scope.
 
@@ -32,6 +32,9 @@ Record case := mkCase {
   k_rebuilt : option (list (name * expr));    (* eqs of to_compartmental_system(names, cs.eqs), by name *)
   k_tocs : option (list comp * list expr * list leq * graph);
       (* to_compartmental_system: default compartments, lhs functions, expanded terms of cs.eqs, real result graph *)
+  k_access : list (node * list (node * expr) * list (node * expr) * list node * nat) * nat;
+      (* per node (every compartment; for output only the inflows are real): get_compartment_outflows,
+         get_compartment_inflows, get_bidirectionals, get_n_connected; and len(cs) *)
   k_envs : list (list (id * Q))
 }.
 
@@ -330,6 +333,21 @@ Definition oracle_subs_order (c : case) : list nat :=
   | None => []
   end.
 
+(* 10: flow accessors *)
+Definition flows_eqb (a b : list (node * expr)) : bool :=
+  list_eqb (fun p q => node_eqb (fst p) (fst q) && expr_eqb (snd p) (snd q)) a b.
+Definition check_access (c : case) : list nat :=
+  let g := model_graph c in
+  tag (Nat.eqb (cs_len g) (snd (k_access c))) 10
+  ++ flat_map (fun r =>
+       let '(nd, outs, ins, bi, nc) := r in
+       tag (flows_eqb (inflows g nd) ins) 10
+       ++ match nd with
+          | Out => []
+          | Cmt _ => tag (flows_eqb (outflows g nd) outs && list_eqb node_eqb (bidirectionals g nd) bi
+                          && Nat.eqb (n_connected g nd) nc) 10
+          end) (fst (k_access c)).
+
 (* 9: the model of to_compartmental_system run on the real expanded equations gives the real graph
    (node order by name, exact; compartments and rates by evaluation) *)
 Definition check_tocs (c : case) : list nat :=
@@ -368,6 +386,6 @@ Definition guard_tags (c : case) : list nat :=
 
 Definition verdict (c : case) : list nat :=
   check_graph c ++ check_dosing c ++ check_order c ++ check_matrix c ++ check_eqs c ++ check_dict c
-  ++ check_from_dict c ++ check_subs c ++ check_tocs c
+  ++ check_from_dict c ++ check_subs c ++ check_tocs c ++ check_access c
   ++ oracle_order c ++ oracle_eqs c ++ oracle_matrix c ++ oracle_mass c ++ oracle_dict c
   ++ oracle_rebuilt c ++ oracle_subs c ++ oracle_subs_order c ++ oracle_tocs c ++ guard_tags c.
